@@ -221,3 +221,27 @@ Proof.
     rewrite (IH idx len H0 Hr). reflexivity.
   - inversion HF as [|? ? H0 Hr]; subst. apply IH; assumption.
 Qed.
+
+(* ---------------------------------------------------------------- macho fat recursion *)
+Lemma macho_nested_fixed : forall files fuel pos, macho_parse true files (S fuel) true pos = Some tt.
+Proof. intros files fuel pos. cbn [macho_parse]. destruct (files pos); reflexivity. Qed.
+
+(* after the fix two frames always suffice, whatever the arch offsets are *)
+Lemma macho_parse_fixed_bounded :
+  forall files pos fuel, macho_parse true files (S (S fuel)) false pos = Some tt.
+Proof.
+  intros files pos fuel. cbn [macho_parse]. destruct (files pos) as [|arches|]; try reflexivity.
+  cbn [andb]. induction arches as [|a l IH]; [reflexivity|].
+  change (macho_parse true files (S fuel) true a) with
+    (match files a with MThin => Some tt | MOther => Some tt | MFat _ => Some tt end).
+  destruct (files a); exact IH.
+Qed.
+
+(* finding C09-macho-fat-recursion: a fat file whose arch points at itself needs more frames than any stack has *)
+Lemma fat_depth_pinned_refuted :
+  forall fuel, macho_parse false (fun _ => MFat [0]) fuel false 0 = None
+               /\ macho_parse false (fun _ => MFat [0]) fuel true 0 = None.
+Proof.
+  induction fuel as [|fuel [IH1 IH2]]; [split; reflexivity|].
+  split; cbn [macho_parse andb]; rewrite IH2; reflexivity.
+Qed.
